@@ -19,6 +19,7 @@ Requests (TAB-separated fields):
 <secs>    = <num>/<den>
 <op>      = set <t> | advd <d> | advs <secs> | clear | now <0|1> | ts <0|1>
           | older <dt> <secs> | newer <dt> <secs> | soon <dt> <secs>
+          | fxup <t> | fxdown | fxadvd <d> | fxadvs <secs>      (TimeFixture entry points, same cell)
 <fields>  = year,month,day,hour,minute,second,microsecond
 <tz>      = naive | none | name:<hex>       <tzentry> = absent | none | name:<hex>
 -/
@@ -54,6 +55,10 @@ def parseOp (s : String) : Option Op :=
   | ["advd", d] => (d.toInt?).map .advDelta
   | ["advs", q] => (parseSecs q).map .advSeconds
   | ["clear"] => some .clear
+  | ["fxup", t] => (t.toInt?).map .fxSetUp
+  | ["fxdown"] => some .fxCleanUp
+  | ["fxadvd", d] => (d.toInt?).map .fxAdvDelta
+  | ["fxadvs", q] => (parseSecs q).map .fxAdvSeconds
   | ["now", f] => (parseFlag f).map .utcnow
   | ["ts", f] => (parseFlag f).map .utcnowTs
   | ["older", d, q] => do let d ← parseDT d; let q ← parseSecs q; pure (.older d q)
